@@ -333,7 +333,7 @@ ALIAS_THOROUGH = [
     alias_cfg("f", 16, "NTR", "none", "uint8_t"),
     alias_cfg("s", 4, "NTR", "basic", "uint32_t", compiler="clang++-14"),
     alias_cfg("v", 0, "TR", "realloc", "uint32_t", std="c++20"),
-    alias_cfg("s", 4, "NTR", "exact", "uint32_t", std="c++11"),
+    alias_cfg("s", 4, "NTR", "exact", "uint32_t", std="c++20"),
 ]
 
 
@@ -362,7 +362,7 @@ LIMITS_THOROUGH = [
     lim_cfg("s", 4, "TC4", "amc", "int16_t"),
     lim_cfg("v", 0, "TC12", "std", "uint8_t"),
     lim_cfg("s", 2, "NTR", "basic", "uint8_t", compiler="clang++-14"),
-    lim_cfg("f", 3, "NTR", "none", "uint8_t", std="c++11"),
+    lim_cfg("f", 3, "NTR", "none", "uint8_t", std="c++20"),
     lim_cfg("v", 0, "NTR", "exact", "uint8_t", std="c++20"),
 ]
 
@@ -388,7 +388,7 @@ FAULT_THOROUGH = [
     fault_cfg("s", 6, "TR", "realloc", "uint16_t"),
     fault_cfg("f", 16, "NTR", "none", "uint8_t"),
     fault_cfg("s", 4, "NTR", "basic", "uint32_t", compiler="clang++-14"),
-    fault_cfg("v", 0, "NTR", "basic", "uint32_t", std="c++11"),
+    fault_cfg("v", 0, "NTR", "basic", "uint32_t", std="c++20"),
     fault_cfg("s", 4, "TR", "basic", "uint32_t", std="c++20"),
 ]
 
@@ -428,5 +428,5 @@ SWAP2_THOROUGH = [
     PairCfg("TR", F3, F8), PairCfg("NTR", V8, F8), PairCfg("NTR", S2, V8), PairCfg("TR", S4U8, F8), PairCfg("NTR", V32, S3X), PairCfg("NTR", S4, S4),
     PairCfg("TC4", S4, "s8:realloc:int16_t"), PairCfg("TR", "s1:realloc:uint16_t", "v:realloc:uint64_t"), PairCfg("NTR", "s8:amc:uint32_t", "v:amc:uint32_t"),
     PairCfg("NTR", V32, V32), PairCfg("TR", "s3:exact:int8_t", "s5:exact:uint32_t"), PairCfg("TC12", "s2:std:uint32_t", "f8"),
-    PairCfg("NTR", V32, S4, compiler="clang++-14"), PairCfg("TR", S4, S4U8, std="c++20"), PairCfg("NTR", S2, F3, std="c++11"),
+    PairCfg("NTR", V32, S4, compiler="clang++-14"), PairCfg("TR", S4, S4U8, std="c++20"), PairCfg("NTR", S2, F3, std="c++20"),
 ]
